@@ -66,6 +66,6 @@ def run(ctx, replay=None):
     tpath = ctx.write_ndjson("tables.json", [tables])
     cpath = ctx.write_ndjson("cases.ndjson", cases)
     ctx.go_test("c02", run="TestReplay$", env={"VERIF_TABLES": tpath, "VERIF_CASES": cpath}, timeout=3300)
-    ctx.exhaustive = {"domain": "28 base chains x %s x 7 trusted pools; 2160 option combinations x 2 endpoints "
+    ctx.exhaustive = {"domain": "28 base chains (+7 submitted unperturbed) x %s x 7 trusted pools; 2160 option combinations x 2 endpoints "
                                 "evaluated by TLC in every state" % ctx.pick("every single perturbation", "one or two stacked perturbations"),
                       "states": len(cases)}
